@@ -1,4 +1,4 @@
-import IstioModel.C15.Resync
+import IstioModel.C15.PodCache
 
 /-!
 # C15 - property theorems
@@ -11,15 +11,22 @@ same endpoint sets and service-account sets as a cold start on the final objects
 
 The model (`Model.lean`) is the controller as it is, order dependences included (notes/C15.md,
 findings).  `Inv c` (`Inv.lean`) says that every cache of the controller is what its handler
-computes from the stores *as they are now* - a function of the current objects, with no memory of
-the order of arrival.  The theorems:
+computes from the stores *as they are now*, and `PodCacheOK c` (`PodCache.lean`) that the pod cache
+`podsByIP` / `ipByPods` is the set of running, ready pods of the store by IP - together a function of
+the current objects, with no memory of the order of arrival.  The theorems:
 
-* `handlers_preserve_inv`  every handler (event plus the replays it queues) preserves `Inv` on a
-  "good" step; the conditions of `GoodStep` are explicit and decidable, each one excludes exactly one
-  of the order dependences of the real controller (each with a witness below);
+* `handlers_preserve_inv`  every write handled to quiescence (the event against the updated store plus
+  the replays it queues) preserves both on a "good" step; the conditions of `GoodStep` are explicit,
+  decidable statements about the objects seen so far and the written object, each one excludes exactly
+  one of the order dependences of the real controller (each with a witness below).  A pod that is
+  deleted (or evicted) while slices still refer to it leaves those slices *stale* until the slice
+  controller rewrites them (the causal Kubernetes order); the stale set is tracked along the history
+  (`staleStep`) and exempted from the invariant meanwhile;
 * `convergence_any_order`  hence for every history and every interleaving of the per-kind streams
-  (any list of writes) made of good steps, the caches at the end are that function of the final
-  objects - two orders of the same history cannot end differently;
+  (any list of writes, each handled before the next: the class of schedules covered; the windows in
+  which the stores run ahead of the handlers are covered for the cold start only, `ColdStart.lean`)
+  made of good steps, the caches at the end are that function of the final objects - two orders of
+  the same history cannot end differently;
 * `needResync_no_leak`, `endpoint_before_pod`, ... corollaries and concrete examples;
 * `*_witness`  the order dependences the hypotheses exclude, as theorems about the model
   (all replayed on the real controller by harness/corpus/C15/order.known.ops).
@@ -38,12 +45,42 @@ theorem inv_empty : Inv ({} : Ctl) := by
   · intro h; simp [IdxOK, alookup]
   · intro h per hl; simp [alookup] at hl
 
+/-! ## slices left stale by a pod delete -/
+
+/-- (namespace, name) of the slices whose cached endpoints may still show a pod that has been deleted
+    since the slice was last written -/
+abbrev StaleSet := List (String × String)
+
+def StaleP (st : StaleSet) (x : Slice) : Prop := (x.ns, x.name) ∈ st
+
+instance (sl : Slice) (ns name : String) : Decidable (Refs sl ns name) := by unfold Refs; exact inferInstance
+
+/-- the slices of the store with an endpoint that refers to the pod -/
+def refsOf (c : Ctl) (ns name : String) : StaleSet :=
+  (c.slices.filter (fun x => decide (Refs x ns name))).map (fun x => (x.ns, x.name))
+
+/-- bookkeeping of the stale set: a pod that leaves the store (delete, eviction) makes the slices that
+    still refer to it stale; writing or deleting a slice clears it -/
+def staleStep (c : Ctl) (st : StaleSet) : Op → StaleSet
+  | .delPod ns name => if (findPod c.pods ns name).isSome then st ++ refsOf c ns name else st
+  | .pod v => if v.phase = "F" ∧ (findPod c.pods v.ns v.name).isSome then st ++ refsOf c v.ns v.name else st
+  | .slice v => st.filter (fun k => k ≠ (v.ns, v.name))
+  | .delSlice ns name => st.filter (fun k => k ≠ (ns, name))
+  | _ => st
+
 /-! ## good steps -/
 
+/-- a label edit does not reach a stale slice: no stale slice belongs to a Service that
+    `recomputeServiceForPod` visits for the new labels -/
+def LabelFree (c : Ctl) (st : StaleSet) (v : Pod) : Prop :=
+  ∀ x ∈ c.slices, StaleP st x → ∀ sv ∈ c.svcs, sv.ns = v.ns → selMatch sv.sel v.labels = true →
+    ¬ (x.ns = sv.ns ∧ x.svc = sv.name)
+
 /-- The side conditions under which the controller repairs its caches after one write (the state
-    `c` is the controller before the write).  Every clause is a decidable statement about the
-    objects seen so far and the written object. -/
-def GoodStep (c : Ctl) : Op → Prop
+    `c` is the controller before the write, `st` the slices currently stale).  Every clause is a
+    decidable statement about the objects seen so far and the written object (`SvcIrrelevant` reads the
+    pod cache, which is a function of the pods by `PodCacheOK`). -/
+def GoodStep (c : Ctl) (st : StaleSet) : Op → Prop
   | .slice v =>
       WF { c with slices := upsertBy (fun x => x.ns = v.ns ∧ x.name = v.name) v c.slices } ∧
       (∀ o ∈ c.slices, o.ns = v.ns → o.name = v.name → o.svc = v.svc ∧ o.fqdn = v.fqdn) ∧
@@ -55,121 +92,232 @@ def GoodStep (c : Ctl) : Op → Prop
   | .delSvc ns name =>
       WF c ∧ ∀ o, findSvc c.svcs ns name = some o → SvcIrrelevant c o.host (some o) none
   | .pod v =>
-      v.phase ≠ "F" ∧
-      WF { c with pods := upsertBy (fun x => x.ns = v.ns ∧ x.name = v.name) v c.pods } ∧
-      NoCachedAddr c ∧ (∀ c', stepC c (.pod v) = some c' → NoCachedAddr c') ∧ (PodGood c v ∨ PodLabelGood c v)
-  | .delPod ns name =>
-      WF c ∧ NoCachedAddr c ∧ (∀ c', stepC c (.delPod ns name) = some c' → NoCachedAddr c') ∧ PodDelGood c ns name
+      WF c ∧ PodKeysOK c.pods ∧ NoPodAtUntargeted c ∧ PodIPStable c v ∧
+      (v.phase ≠ "F" →
+        WF { c with pods := upsertBy (fun x => x.ns = v.ns ∧ x.name = v.name) v c.pods } ∧
+        PodKeysOK (upsertBy (fun x => x.ns = v.ns ∧ x.name = v.name) v c.pods) ∧
+        NoPodAtUntargeted { c with pods := upsertBy (fun x => x.ns = v.ns ∧ x.name = v.name) v c.pods } ∧
+        (PodGood c v ∨ (PodLabelGood c v ∧ LabelFree c st v)))
+  | .delPod _ _ => WF c ∧ PodKeysOK c.pods ∧ NoPodAtUntargeted c
   | .node v =>
-      NoCachedAddr c ∧ ∀ p ∈ c.pods, localityOf (upsertBy (fun x => x.name = v.name) v c.nodes) p = localityOf c.nodes p
+      NoPodAtUntargeted c ∧ ∀ p ∈ c.pods, localityOf (upsertBy (fun x => x.name = v.name) v c.nodes) p = localityOf c.nodes p
   | .delNode name =>
-      NoCachedAddr c ∧ ∀ p ∈ c.pods, localityOf (c.nodes.filter (·.name ≠ name)) p = localityOf c.nodes p
+      NoPodAtUntargeted c ∧ ∀ p ∈ c.pods, localityOf (c.nodes.filter (·.name ≠ name)) p = localityOf c.nodes p
   | .ns v => ∀ sv ∈ c.svcs, sv.ns ≠ v.name
   | .delNs name => ∀ sv ∈ c.svcs, sv.ns ≠ name
   | .hold => False
   | .release => True
 
+/-- what is established after every write: the caches are the handler-function of the stores (stale
+    slices exempt), the pod cache is the function of the pods, `needResync` holds only what waits -/
+structure Stable (c : Ctl) (st : StaleSet) : Prop where
+  inv : InvExcept c (StaleP st)
+  pc : PodCacheOK c
+  sound : ResyncSound c
+
+theorem stable_empty : Stable ({} : Ctl) [] := by
+  refine ⟨inv_empty.mono (fun _ _ h => absurd h (fun h => h)), ⟨?_, ?_⟩, ?_⟩
+  · intro ip key
+    constructor
+    · intro h; simp [setContains, alookup] at h
+    · intro ⟨p, hp, _⟩; cases hp
+  · intro key ip
+    constructor
+    · intro h; simp [alookup] at h
+    · intro h; simp [setContains, alookup] at h
+  · intro a k h
+    simp [setContains, alookup] at h
+
+theorem mem_refsOf (c : Ctl) (ns name : String) (x : Slice) (hx : x ∈ c.slices) (h : Refs x ns name) :
+    StaleP (refsOf c ns name) x := by
+  unfold StaleP refsOf
+  rw [List.mem_map]
+  exact ⟨x, List.mem_filter.mpr ⟨hx, by simpa using h⟩, rfl⟩
+
+theorem noPodAt_removed (c c' : Ctl) (ns name : String) (hu : NoPodAtUntargeted c)
+    (hst : SameSt { c with pods := c.pods.filter (fun x => !(x.ns = ns ∧ x.name = name)) } c') :
+    NoPodAtUntargeted c' := by
+  intro sl hsl ea hea htg p hp
+  rw [hst.2] at hsl
+  rw [hst.1] at hp
+  exact hu sl hsl ea hea htg p (List.mem_filter.mp hp).1
+
+/-- a pod leaves the store: everything is kept, the slices that refer to it become stale -/
+theorem pod_removed_stable (c : Ctl) (st : StaleSet) (ns name : String) (evp o : Pod)
+    (hfo : findPod c.pods ns name = some o) (hevp : evp.ns = ns ∧ evp.name = name)
+    (hs : Stable c st) (hwf : WF c) (hk : PodKeysOK c.pods) (hu : NoPodAtUntargeted c)
+    (hip : o.ip = "" ∨ evp.ip = "" ∨ evp.ip = o.ip) :
+    Stable (runAll { c with pods := c.pods.filter (fun x => !(x.ns = ns ∧ x.name = name)) } [.podDel evp])
+      (st ++ refsOf c ns name) := by
+  have hst := runAll_one_st { c with pods := c.pods.filter (fun x => !(x.ns = ns ∧ x.name = name)) } (.podDel evp)
+  have hpc' := pod_removed_podCache c ns name evp o hfo hevp hs.pc hk hip
+  have hnc := noCachedAddr_of_objects c hs.pc hu
+  have hnc' := noCachedAddr_of_objects _ hpc' (noPodAt_removed c _ ns name hu hst)
+  refine ⟨?_, hpc', pod_removed_sound c ns name evp hs.sound hwf⟩
+  apply (pod_removed_inv c ns name evp hs.inv hwf hnc hnc').mono
+  intro x hx hp
+  rw [hst.2] at hx
+  unfold StaleP
+  rw [List.mem_append]
+  cases hp with
+  | inl h => exact Or.inl h
+  | inr h => exact Or.inr (mem_refsOf c ns name x hx h)
+
 /-- **handlers_preserve_inv.**  One write, handled to quiescence (the informer event against the
     updated store, then every replay it queued), takes a controller whose caches are a function of
     its stores to a controller whose caches are that function of the new stores. -/
-theorem handlers_preserve_inv (c : Ctl) (op : Op) (c' : Ctl)
-    (hinv : Inv c) (hgood : GoodStep c op) (hstep : stepC c op = some c') : Inv c' := by
+theorem handlers_preserve_inv (c : Ctl) (st : StaleSet) (op : Op) (c' : Ctl)
+    (hs : Stable c st) (hgood : GoodStep c st op) (hstep : stepC c op = some c') :
+    Stable c' (staleStep c st op) := by
+  have hpcO : (∀ v, op ≠ .pod v) → (∀ ns name, op ≠ .delPod ns name) → PodCacheOK c' := by
+    intro h1 h2
+    have := step_other_pc c op c' hstep h1 h2
+    exact hs.pc.of_eq this.1 this.2.1 this.2.2
   cases op with
-  | slice v => exact slice_write_inv c v c' hstep hinv hgood.1 hgood.2.1
-  | delSlice ns name => exact slice_delete_inv c ns name c' hstep hinv hgood
-  | svc v => exact svc_write_inv c v c' hstep hinv hgood.1 hgood.2.2 hgood.2.1
-  | delSvc ns name => exact svc_delete_inv c ns name c' hstep hinv hgood.1 hgood.2
+  | slice v =>
+    refine ⟨?_, hpcO (by simp) (by simp), slice_write_sound c v c' hstep hs.sound hgood.2.2.1 hgood.1
+      (fun o ho h1 h2 => (hgood.2.1 o ho h1 h2).1) hgood.2.2.2⟩
+    apply (slice_write_inv c v c' hstep hs.inv hgood.1 hgood.2.1).mono
+    intro x hx hp
+    simp only [staleStep, StaleP]
+    rw [List.mem_filter]
+    refine ⟨hp.1, ?_⟩
+    simp only [ne_eq, decide_not, Bool.not_eq_true', decide_eq_false_iff_not, Prod.mk.injEq]
+    intro hn
+    apply hp.2
+    simp only [stepC, Option.some.injEq] at hstep
+    have hsl : c'.slices = upsertBy (fun x => x.ns = v.ns ∧ x.name = v.name) v c.slices := by
+      rw [← hstep]
+      exact (runAll_one_st _ _).2
+    rw [hsl] at hx
+    exact hgood.1.sliceNameInj x hx v (mem_upsertBy_self _ v c.slices) hn.1 hn.2
+  | delSlice ns name =>
+    refine ⟨?_, hpcO (by simp) (by simp), slice_delete_sound c ns name c' hstep hs.sound hgood⟩
+    apply (slice_delete_inv c ns name c' hstep hs.inv hgood).mono
+    intro x hx hp
+    simp only [staleStep, StaleP]
+    rw [List.mem_filter]
+    refine ⟨hp, ?_⟩
+    simp only [ne_eq, decide_not, Bool.not_eq_true', decide_eq_false_iff_not, Prod.mk.injEq]
+    intro hn
+    simp only [stepC] at hstep
+    cases hf : findSlice c.slices ns name with
+    | none => rw [hf] at hstep; cases hstep
+    | some o =>
+      rw [hf] at hstep
+      simp only [Option.map, Option.some.injEq] at hstep
+      have hsl : c'.slices = c.slices.filter (fun x => !(x.ns = ns ∧ x.name = name)) := by
+        rw [← hstep]
+        exact (runAll_one_st _ _).2
+      rw [hsl] at hx
+      have := (List.mem_filter.mp hx).2
+      simp [hn.1, hn.2] at this
+  | svc v =>
+    exact ⟨svc_write_inv c v c' hstep hs.inv hgood.1 hgood.2.2 hgood.2.1, hpcO (by simp) (by simp),
+      svc_write_sound c v c' hstep hgood.2.2 hs.sound⟩
+  | delSvc ns name =>
+    exact ⟨svc_delete_inv c ns name c' hstep hs.inv hgood.1 hgood.2, hpcO (by simp) (by simp),
+      svc_delete_sound c ns name c' hstep hs.sound⟩
   | pod v =>
-    cases hgood.2.2.2.2 with
-    | inl hg => exact pod_write_inv c v c' hgood.1 hstep hinv hgood.2.1 hgood.2.2.1 (hgood.2.2.2.1 c' hstep) hg
-    | inr hg => exact pod_label_edit_inv c v c' hgood.1 hstep hinv hgood.2.1 hgood.2.2.1 hg
+    obtain ⟨hwf, hk, hu, hip, hrest⟩ := hgood
+    by_cases hph : v.phase = "F"
+    · cases hfo : findPod c.pods v.ns v.name with
+      | none => simp [stepC, hph, hfo] at hstep
+      | some o =>
+        simp only [stepC, hph, if_true, hfo, Option.map, Option.some.injEq] at hstep
+        subst hstep
+        have : staleStep c st (.pod v) = st ++ refsOf c v.ns v.name := by simp [staleStep, hph, hfo]
+        rw [this]
+        exact pod_removed_stable c st v.ns v.name v o hfo ⟨rfl, rfl⟩ hs hwf hk hu (hip o hfo)
+    · obtain ⟨hwf1, hk1, hu1, hg⟩ := hrest hph
+      have : staleStep c st (.pod v) = st := by simp [staleStep, hph]
+      rw [this]
+      have hpc' := pod_write_podCache c v c' hph hstep hs.pc hk hk1 hip
+      have hst : SameSt { c with pods := upsertBy (fun x => x.ns = v.ns ∧ x.name = v.name) v c.pods } c' := by
+        rw [stepC_pod c v hph, Option.some.injEq] at hstep
+        rw [← hstep]
+        exact runAll_one_st _ _
+      have hnc := noCachedAddr_of_objects c hs.pc hu
+      have hnc' : NoCachedAddr c' := by
+        apply noCachedAddr_of_objects c' hpc'
+        intro sl hsl ea hea htg p hp
+        rw [hst.2] at hsl
+        rw [hst.1] at hp
+        exact hu1 sl hsl ea hea htg p hp
+      cases hg with
+      | inl hg =>
+        exact ⟨pod_write_inv c v c' hph hstep hs.inv hwf1 hnc hnc' hg, hpc', pod_write_sound c v c' hph hstep hs.sound hwf1 hg⟩
+      | inr hg =>
+        exact ⟨pod_label_edit_inv c v c' hph hstep hs.inv hwf1 hnc hg.1 hg.2, hpc',
+          pod_label_edit_sound c v c' hph hstep hs.sound hg.1⟩
   | delPod ns name =>
-    exact pod_delete_inv c ns name c' hstep hinv hgood.1 hgood.2.1 (hgood.2.2.1 c' hstep) hgood.2.2.2
+    obtain ⟨hwf, hk, hu⟩ := hgood
+    cases hfo : findPod c.pods ns name with
+    | none => simp [stepC, hfo] at hstep
+    | some o =>
+      simp only [stepC, hfo, Option.map, Option.some.injEq] at hstep
+      subst hstep
+      have : staleStep c st (.delPod ns name) = st ++ refsOf c ns name := by simp [staleStep, hfo]
+      rw [this]
+      have ho := List.find?_some hfo
+      simp only [Bool.decide_and, Bool.and_eq_true, decide_eq_true_eq] at ho
+      exact pod_removed_stable c st ns name o o hfo ho hs hwf hk hu (Or.inr (Or.inr rfl))
   | node v =>
     simp only [stepC, Option.some.injEq] at hstep
     subst hstep
-    exact nodes_change_inv c _ hinv hgood.1 hgood.2
+    exact ⟨nodes_change_inv c _ hs.inv (noCachedAddr_of_objects c hs.pc hgood.1) hgood.2, hs.pc.of_eq rfl rfl rfl, hs.sound⟩
   | delNode name =>
     simp only [stepC] at hstep
     split at hstep
     · simp only [Option.some.injEq] at hstep
       subst hstep
-      exact nodes_change_inv c _ hinv hgood.1 hgood.2
+      exact ⟨nodes_change_inv c _ hs.inv (noCachedAddr_of_objects c hs.pc hgood.1) hgood.2, hs.pc.of_eq rfl rfl rfl, hs.sound⟩
     · cases hstep
   | ns v =>
+    have hpc' := hpcO (by simp) (by simp)
     rw [ns_write_ctl c v hgood, Option.some.injEq] at hstep
     subst hstep
-    exact hinv.of_nss _
+    exact ⟨hs.inv.of_nss _, hpc', hs.sound⟩
   | delNs name =>
-    rw [ns_delete_ctl c name c' hgood hstep]
-    exact hinv.of_nss _
-  | hold => exact absurd hgood (fun h => h)
-  | release =>
-    simp only [stepC, Option.some.injEq] at hstep
-    subst hstep
-    exact hinv
-
-/-- the same steps keep `needResync` sound: registered means still waiting -/
-theorem handlers_preserve_resync (c : Ctl) (op : Op) (c' : Ctl)
-    (hs : ResyncSound c) (hgood : GoodStep c op) (hstep : stepC c op = some c') : ResyncSound c' := by
-  cases op with
-  | slice v => exact slice_write_sound c v c' hstep hs hgood.2.2.1 hgood.1 (fun o ho h1 h2 => (hgood.2.1 o ho h1 h2).1) hgood.2.2.2
-  | delSlice ns name => exact slice_delete_sound c ns name c' hstep hs hgood
-  | svc v => exact svc_write_sound c v c' hstep hgood.2.2 hs
-  | delSvc ns name => exact svc_delete_sound c ns name c' hstep hs
-  | pod v =>
-    cases hgood.2.2.2.2 with
-    | inl hg => exact pod_write_sound c v c' hgood.1 hstep hs hgood.2.1 hg
-    | inr hg => exact pod_label_edit_sound c v c' hgood.1 hstep hs hg
-  | delPod ns name => exact pod_delete_sound c ns name c' hstep hs hgood.1 hgood.2.2.2
-  | node v =>
-    simp only [stepC, Option.some.injEq] at hstep
-    subst hstep
-    exact hs
-  | delNode name =>
-    simp only [stepC] at hstep
-    split at hstep
-    · simp only [Option.some.injEq] at hstep
-      subst hstep
-      exact hs
-    · cases hstep
-  | ns v =>
-    rw [ns_write_ctl c v hgood, Option.some.injEq] at hstep
-    subst hstep
-    exact hs
-  | delNs name =>
-    rw [ns_delete_ctl c name c' hgood hstep]
-    exact hs
+    have hpc' := hpcO (by simp) (by simp)
+    rw [ns_delete_ctl c name c' hgood hstep] at hpc' ⊢
+    exact ⟨hs.inv.of_nss _, hpc', hs.sound⟩
   | hold => exact absurd hgood (fun h => h)
   | release =>
     simp only [stepC, Option.some.injEq] at hstep
     subst hstep
     exact hs
 
-/-- every step of the history is good in the state in which it happens -/
-def AllGood : Ctl → List Op → Prop
-  | _, [] => True
-  | c, o :: r => GoodStep c o ∧ AllGood ((stepC c o).getD c) r
+/-- every step of the history is good in the state (and with the stale set) in which it happens -/
+def AllGood : Ctl → StaleSet → List Op → Prop
+  | _, _, [] => True
+  | c, st, o :: r => GoodStep c st o ∧ AllGood ((stepC c o).getD c) (if (stepC c o).isSome then staleStep c st o else st) r
 
-theorem runC_inv (ops : List Op) (c : Ctl) (hinv : Inv c) (hgood : AllGood c ops) : Inv (runC c ops) := by
-  induction ops generalizing c with
-  | nil => exact hinv
+/-- the stale set at the end of the history -/
+def staleRun : Ctl → StaleSet → List Op → StaleSet
+  | _, st, [] => st
+  | c, st, o :: r => staleRun ((stepC c o).getD c) (if (stepC c o).isSome then staleStep c st o else st) r
+
+theorem runC_stable (ops : List Op) (c : Ctl) (st : StaleSet) (hs : Stable c st) (hgood : AllGood c st ops) :
+    Stable (runC c ops) (staleRun c st ops) := by
+  induction ops generalizing c st with
+  | nil => exact hs
   | cons o r ih =>
-    simp only [runC]
-    cases hs : stepC c o with
+    simp only [runC, staleRun]
+    cases hst : stepC c o with
     | none =>
-      simp only [Option.getD]
+      simp only [Option.getD, Option.isSome, Bool.false_eq_true, if_false]
       have := hgood.2
-      rw [hs] at this
-      exact ih c hinv this
+      rw [hst] at this
+      exact ih c st hs this
     | some c' =>
-      simp only [Option.getD]
+      simp only [Option.getD, Option.isSome, if_true]
       have := hgood.2
-      rw [hs] at this
-      exact ih c' (handlers_preserve_inv c o c' hinv hgood.1 hs) this
+      rw [hst] at this
+      exact ih c' _ (handlers_preserve_inv c st o c' hs hgood.1 hst) this
 
-theorem allGood_noHold (ops : List Op) (c : Ctl) (h : AllGood c ops) : NoHold ops := by
-  induction ops generalizing c with
+theorem allGood_noHold (ops : List Op) (c : Ctl) (st : StaleSet) (h : AllGood c st ops) : NoHold ops := by
+  induction ops generalizing c st with
   | nil => intro o ho; cases ho
   | cons o r ih =>
     intro x hx
@@ -179,55 +327,49 @@ theorem allGood_noHold (ops : List Op) (c : Ctl) (h : AllGood c ops) : NoHold op
       intro hh
       subst hh
       exact h.1
-    | inr hxr => exact ih _ h.2 x hxr
+    | inr hxr => exact ih _ _ h.2 x hxr
 
 /-- **convergence_any_order.**  For every history (any list of creates, updates and deletes of
-    Services, EndpointSlices, Pods and Nodes - hence every interleaving of the per-kind streams,
-    every repetition) whose steps are good, the controller started empty ends with caches that are
-    the handler-function of the final stores: `servicesMap` is the Services of the store, every
-    cache entry is `updateEndpointCacheForSlice` of a slice of the store evaluated on the final
-    objects, no other entry exists, every address still without pod is registered in `needResync`,
-    and the index holds `endpointSliceCache.get` of those entries.  Nothing in `Inv` refers to the
-    order of arrival, so two orders of the same history end in the same derived state. -/
-theorem convergence_any_order (ops : List Op) (hgood : AllGood {} ops) : Inv (run {} ops).c := by
-  have hn := allGood_noHold ops {} hgood
+    Services, EndpointSlices, Pods, Nodes and Namespaces - hence every interleaving of the per-kind
+    streams, every repetition - each write handled to quiescence before the next) whose steps are good,
+    the controller started empty ends with caches that are the handler-function of the final stores:
+    `servicesMap` is the Services of the store, every cache entry of a slice that is not stale is
+    `updateEndpointCacheForSlice` of that slice evaluated on the final objects, no other entry exists,
+    every address still without pod is registered in `needResync`, the index holds
+    `endpointSliceCache.get` of those entries, and `podsByIP` / `ipByPods` hold exactly the running,
+    ready pods of the store.  `EntryOK` reads the pod cache, which is itself this function of the Pod
+    store; so nothing in the conclusion refers to the order of arrival, and two orders of the same
+    history end in the same derived state. -/
+theorem convergence_any_order (ops : List Op) (hgood : AllGood {} [] ops) :
+    InvExcept (run {} ops).c (StaleP (staleRun {} [] ops)) ∧ PodCacheOK (run {} ops).c := by
+  have hn := allGood_noHold ops {} [] hgood
   rw [(run_sync ops {} rfl rfl hn).1]
-  exact runC_inv ops {} inv_empty hgood
+  have := runC_stable ops {} [] stable_empty hgood
+  exact ⟨this.inv, this.pc⟩
 
-theorem runC_sound (ops : List Op) (c : Ctl) (hs : ResyncSound c) (hgood : AllGood c ops) : ResyncSound (runC c ops) := by
-  induction ops generalizing c with
-  | nil => exact hs
-  | cons o r ih =>
-    simp only [runC]
-    cases hst : stepC c o with
-    | none =>
-      simp only [Option.getD]
-      have := hgood.2
-      rw [hst] at this
-      exact ih c hs this
-    | some c' =>
-      simp only [Option.getD]
-      have := hgood.2
-      rw [hst] at this
-      exact ih c' (handlers_preserve_resync c o c' hs hgood.1 hst) this
+/-- the same when every pod delete has been followed by the slice controller's write of the slices
+    that referred to the pod (nothing stale at the end): the full invariant -/
+theorem convergence_any_order_inv (ops : List Op) (hgood : AllGood {} [] ops) (hst : staleRun {} [] ops = []) :
+    Inv (run {} ops).c := by
+  have := (convergence_any_order ops hgood).1
+  rw [hst] at this
+  exact this.mono (fun _ _ h => by simp [StaleP] at h)
 
 /-- **needResync_no_leak.**  After any good history, with the queue drained, `needResync` is exactly the
     set of endpoints still waiting for a pod: an address is registered under a slice key if and only
     if that slice is in the store and has the address on an endpoint whose targetRef pod is not in
     the store.  Nothing stays behind for a pod that has arrived, for a removed address or for a
-    deleted slice. -/
-theorem needResync_no_leak (ops : List Op) (hgood : AllGood {} ops) :
+    deleted slice.  (For a slice that is stale the "if" direction holds after its next write.) -/
+theorem needResync_no_leak (ops : List Op) (hgood : AllGood {} [] ops) :
     (∀ a k, setContains (run {} ops).c.resync a k = true →
       ∃ sl ∈ (run {} ops).c.slices, sl.key = k ∧ a ∈ parkedAddrs (run {} ops).c.pods sl) ∧
-    (∀ sl ∈ (run {} ops).c.slices, ∀ a ∈ parkedAddrs (run {} ops).c.pods sl,
+    (∀ sl ∈ (run {} ops).c.slices, ¬ StaleP (staleRun {} [] ops) sl → ∀ a ∈ parkedAddrs (run {} ops).c.pods sl,
       setContains (run {} ops).c.resync a sl.key = true) := by
-  have hn := allGood_noHold ops {} hgood
+  have hn := allGood_noHold ops {} [] hgood
   refine ⟨?_, ?_⟩
   · rw [(run_sync ops {} rfl rfl hn).1]
-    apply runC_sound ops {} _ hgood
-    intro a k h
-    simp [setContains, alookup] at h
-  · intro sl hsl a ha
-    exact (convergence_any_order ops hgood).parked sl hsl (fun hf => hf) a ha
+    exact (runC_stable ops {} [] stable_empty hgood).sound
+  · intro sl hsl hns a ha
+    exact (convergence_any_order ops hgood).1.parked sl hsl hns a ha
 
 end IstioModel.C15
